@@ -20,6 +20,8 @@ from django_evolution.signature import (AppSignature, ConstraintSignature, Field
 FIELD = SignatureField()
 STRS = ['x', '', "it's", 'a"b', 'é', 'col name', '%s']
 INTS = [0, 1, 255, 2 ** 31]
+LENS = [0, None, 255, 2 ** 31]          # max_length stated as 0 / None / ordinary values
+COLS = ['x', None, "it's", 'a"b', 'é', 'col name', '']
 TYPES = [models.CharField, models.IntegerField, models.BooleanField, models.DecimalField,
          models.ForeignKey, models.ManyToManyField, models.OneToOneField]
 
@@ -95,7 +97,7 @@ def h_field(t: int, p_null: bool, null: bool, p_len: bool, li: int, p_col: bool,
     # text is compared byte for byte, and JSON keeps insertion order)
     attrs = {}
     if p_len:
-        attrs['max_length'] = hx.pick(INTS, li)
+        attrs['max_length'] = hx.pick(LENS, li)
     if p_uniq:
         attrs['unique'] = True if uniq else False
     if p_null:
@@ -103,7 +105,7 @@ def h_field(t: int, p_null: bool, null: bool, p_len: bool, li: int, p_col: bool,
     if p_idx:
         attrs['db_index'] = True if idx else False
     if p_col:
-        attrs['db_column'] = hx.pick(STRS, ci)
+        attrs['db_column'] = hx.pick(COLS, ci)
     if p_dec:
         attrs['max_digits'] = hx.pick(INTS, di)
         attrs['decimal_places'] = hx.pick(INTS, di)
